@@ -13,6 +13,7 @@ import (
 	"hash/fnv"
 	"os"
 	"path/filepath"
+	"runtime"
 	"sort"
 	"strconv"
 	"strings"
@@ -348,4 +349,65 @@ func JournalDone() {
 		return
 	}
 	os.Remove(filepath.Join(dir, "journal-"+os.Getenv("VERIF_SHARD")+".json"))
+}
+
+// ---------------------------------------------------------------------------------------------
+// real-time stall watchdog
+//
+// Virtual-time harnesses detect a deadlock when every goroutine of the bubble is durably blocked. A goroutine waiting
+// for a sync.Mutex / RWMutex is not "durably blocked" for testing/synctest, so a lock cycle in the code under test
+// freezes the bubble in real time instead. The watchdog turns that into a verdict: a case that normally takes
+// milliseconds and has not returned after `limit` of wall-clock time (minutes) is reported with its case, a dump of all
+// goroutines, and the process exits.
+
+var stall struct {
+	mu      sync.Mutex
+	started bool
+	limit   time.Duration
+	prop    string
+	facet   string
+	c       any
+	since   time.Time
+	active  bool
+}
+
+// WatchStart starts the watchdog goroutine (once per process). It must be called from outside any synctest bubble.
+func WatchStart(limit time.Duration) {
+	stall.mu.Lock()
+	defer stall.mu.Unlock()
+	if stall.started {
+		return
+	}
+	stall.started, stall.limit = true, limit
+	go func() {
+		for {
+			time.Sleep(2 * time.Second)
+			stall.mu.Lock()
+			hit := stall.active && time.Since(stall.since) > stall.limit
+			prop, facet, c, since := stall.prop, stall.facet, stall.c, stall.since
+			stall.mu.Unlock()
+			if !hit {
+				continue
+			}
+			buf := make([]byte, 4<<20)
+			buf = buf[:runtime.Stack(buf, true)]
+			msg := fmt.Sprintf("the case has not returned after %s of wall-clock time (cases of this facet take milliseconds): a call is stuck where neither a result nor the virtual clock can reach it - typically goroutines waiting for each other on a lock", time.Since(since).Round(time.Second))
+			WriteFailure(prop, facet, c, string(buf[:min(len(buf), 60000)]), msg)
+			Flush()
+			fmt.Fprintf(os.Stderr, "veriflib watchdog: %s\n%s\n", msg, buf)
+			os.Exit(3)
+		}
+	}()
+}
+
+// WatchCase marks the case now being executed; the returned function marks its end. No-op when WatchStart was not called.
+func WatchCase(property, facet string, c any) func() {
+	stall.mu.Lock()
+	stall.prop, stall.facet, stall.c, stall.since, stall.active = property, facet, c, time.Now(), true
+	stall.mu.Unlock()
+	return func() {
+		stall.mu.Lock()
+		stall.active = false
+		stall.mu.Unlock()
+	}
 }
